@@ -480,7 +480,8 @@ pub fn expect_run(case: &ProcCase, p: &Parsed) -> Expect {
 				// (outcomes may legitimately depend on it where C02 is violated, e.g. F11);
 				// standard input additionally sits behind std's own 8 KiB BufReader.
 				let sched = plan.as_ref().map_or_else(Sched::whole, |pl| pl.sched.clone());
-				let rd = SimReader::new(0, Rc::new(bytes.clone()), sched, rfault, vec![], None, log.clone());
+				let eintr = plan.as_ref().map(|pl| pl.eintr.clone()).unwrap_or_default();
+				let rd = SimReader::new(0, Rc::new(bytes.clone()), sched, rfault, eintr, None, log.clone());
 				if is_stdin {
 					let rd = std::io::BufReader::with_capacity(8192, rd);
 					guarded(|| translator.translate_reader(rd, from.map(Fmt::xt)).map_err(|e| e.to_string()))
